@@ -58,6 +58,8 @@ func main() {
 			timeOps(o, seed, n)
 		case "go":
 			goOps(o, seed, n)
+		case "search":
+			searchOps(o, seed, n, tier, corpus+"/fens.txt")
 		default:
 			usage()
 		}
